@@ -696,6 +696,21 @@ fn kv_view_is_chain_of_steps() {
             }
         }
     }
+    // option values that do not fit the spectrum read: a diagnosed error or a result, never a panic
+    let input = file("in33.txt");
+    std::fs::write(&input, "#SHAPE=<3/3>\n1 2 3 4 5 6 7 8 9\n").unwrap();
+    for opts in [
+        vec!["-M", "2"], vec!["-M", "0,7"], vec!["-M", "18446744073709551615"], vec!["-M", "1,1"], vec!["-m", "5"], vec!["-m", "0,0"],
+        vec!["-m", "0,1"], vec!["--project-shape", "9,9"], vec!["--project-shape", "0,0"], vec!["--project-shape", "3"], vec!["-p", "2,2,2"],
+        vec!["-M", "3", "--mask-monomorphic", "--normalize"],
+    ] {
+        let mut a: Vec<String> = vec!["view".into()];
+        a.extend(opts.iter().map(|s| s.to_string()));
+        a.push(input.display().to_string());
+        let out = Command::new(env!("CARGO_BIN_EXE_sfs")).args(&a).env("SFS_ALLOW_STDIN", "1").stdin(std::process::Stdio::null()).output().expect("sfs runs");
+        let stderr = String::from_utf8_lossy(&out.stderr);
+        assert!(matches!(out.status.code(), Some(0) | Some(1)) && !stderr.contains("panicked at"), "sfs {a:?} ended with status {:?}: {stderr}", out.status.code());
+    }
     let _ = std::fs::remove_dir_all(&dir);
 }
 """
